@@ -272,6 +272,19 @@ def runLaw (name e : String) (args : List String) : Option (String × String) :=
         let y ← entry e (g1k a) (g2k c)
         pure (decide (l = x * y))
       pure (outBool m1 ++ "," ++ outBool m2, "true,true")
+  | "additive2", [p1, p2, q1, q2] => do
+      let p1 ← pG1 p1; let p2 ← pG1 p2; let q1 ← pG2 q1; let q2 ← pG2 q2
+      let m1 := do
+        let l ← entry e (p1.add p2) q1
+        let x ← entry e p1 q1
+        let y ← entry e p2 q1
+        pure (decide (l = x * y))
+      let m2 := do
+        let l ← entry e p1 (q1.add q2)
+        let x ← entry e p1 q1
+        let y ← entry e p1 q2
+        pure (decide (l = x * y))
+      pure (outBool m1 ++ "," ++ outBool m2, "true,true")
   | "identity", [o1, o2] => do
       let o1 ← pG1 o1; let o2 ← pG2 o2
       let one := Fq12.one
